@@ -43,23 +43,42 @@ def c06_t2(ctx, f):
     val, idx, pt, dest, item = hit
     ctx.check(rid, val == [0xEC, 0x11], fn.path + "/pad-bytes", fn.where(pt), fn.path, item or "pad constant",
               "pad codewords are not 11101100, 00010001", expected=[0xEC, 0x11], found=val, sample="PAD_BYTES = %s" % val)
-    # index = (enumerate index) % 2, enumerate directly feeding the loop
-    ok = None
-    if idx[0] == "bin" and idx[1] == "Rem" and K(idx[3]) == 2:
-        x = idx[2]
-        # x = Some(payload).0 of Enumerate::next
-        if x[0] == "field" and x[2] == 0 and x[1][0] == "field" and x[1][1][0] == "downcast" and x[1][1][1][0] == "def":
-            name = call_name_of_def(fn, x[1][1][1][1]) or ""
+    # index = (ordinal of the pad codeword) % 2: the ordinal is the enumerate() counter of the fill loop
+    from .mir import unname
+    seen_enum = {}
+
+    def ren(x):
+        u = unname(x)
+        # Some(payload).0.k of an Enumerate::next
+        if u[0] == "field" and u[1][0] == "field" and u[1][2] == 0 and u[1][1][0] == "downcast" and u[1][1][1][0] == "def":
+            name = call_name_of_def(fn, u[1][1][1][1]) or ""
             if "Enumerate" in name and name.endswith("::next"):
-                # no skip()/rev() between enumerate and the loop
-                names = [c.name or "" for c in fn.calls()]
-                ok = not any(n.endswith("::skip") or n.endswith("::rev") for n in names)
-    if ok is None:
-        ctx.abstain(rid, "pad index expression not in the recognised shape (enumerate index % 2): %s" % expr_str(idx, fn), fn.where(pt))
-    else:
-        ctx.check(rid, ok, fn.path + "/pad-parity", fn.where(pt), fn.path, "pad byte index",
-                  "pad alternation does not start at 0xEC with the first pad codeword", found=expr_str(idx, fn),
+                seen_enum[u[2]] = u[1][1][1][1]
+                return "ordinal" if u[2] == 0 else "bitpos"
+        # plain loop variable of a non-enumerated loop over bit positions
+        if u[0] == "field" and u[2] == 0 and u[1][0] == "downcast" and u[1][1][0] == "def":
+            name = call_name_of_def(fn, u[1][1][1]) or ""
+            if name.endswith("::next") and "Enumerate" not in name:
+                return "bitpos"
+        return None
+
+    got = poly.normalise(idx, ren)
+    exp = poly.op("Rem", poly.A("ordinal"), poly.C(2))
+    vocab_ok = all(a in ("ordinal", "bitpos") or (isinstance(a, tuple) and a[0] in ("Rem", "Div", "BitAnd", "Shr")) for a in got.atoms()) \
+        and ("ordinal" in repr(got.key()) or "bitpos" in repr(got.key()))
+    names = [c.name or "" for c in fn.calls()]
+    plain = not any(n.endswith("::skip") or n.endswith("::rev") for n in names)
+    if got == exp:
+        ctx.check(rid, plain, fn.path + "/pad-parity", fn.where(pt), fn.path, "pad byte index",
+                  "pad alternation does not start at 0xEC with the first pad codeword (the pad loop is skipped/reversed)", found=expr_str(idx, fn),
                   sample="pad index = enumerate() % 2")
+    elif vocab_ok:
+        ctx.fail(rid, fn.path + "/pad-parity", fn.where(pt), fn.path, "pad byte index",
+                 "the pad codeword is not selected by the parity of its ordinal among the pad codewords (first pad = 11101100): "
+                 "selecting by absolute position starts with 00010001 whenever the data end on an odd codeword",
+                 expected="ordinal % 2", found=got.show())
+    else:
+        ctx.abstain(rid, "pad index expression outside the recognised vocabulary: %s" % expr_str(idx, fn), fn.where(pt))
     # the byte pushed is that element
     pu = fn.calls("compact::CompactQR::push_u8")
     if len(pu) == 1:
@@ -286,17 +305,41 @@ def _numeric_groups(ctx, rid, f, fn, helper_calls):
                           "a 3-digit group is not 100*d0 + 10*d1 + d2 of consecutive digits", expected=exp.show(), found=got.show(),
                           sample="triple = 100*D(i) + 10*D(i+1) + D(i+2)")
         elif variants and set(variants) <= {"Single", "Double"}:
-            # find the switch assigning the encoding: residue -> variant
+            # the tail group's width must be a function of the digit COUNT only
             mapping = {}
+            payload_dep = []
             for o in eo:
                 if o.kind != "agg":
                     continue
-                for cd, how, s in fn.switch_guards(o.point[0]):
+                blk = o.point[0]
+                for cd, how, s in fn.switch_guards(blk):
                     if cd[0] == "bin" and cd[1] == "Rem" and K(cd[3]) == 3 and how[0] == "eq":
                         mapping[how[1]] = o.info.rv.get("variant")
-            ctx.check(rid, mapping == {1: "Single", 2: "Double"}, fn.path + "/residue-groups", c.where(), fn.path, "tail group kind",
-                      "the tail group kind is not chosen as 1 digit -> Single, 2 digits -> Double", expected={1: "Single", 2: "Double"},
-                      found=mapping, sample="residue 1 -> Single, 2 -> Double")
+                for cd, pol, s in fn.guards_of(blk):
+                    if cd[0] == "bin" and cd[1] in ("Eq", "Ne") and (cd[1] == "Eq") == pol:
+                        for a, b in ((cd[2], cd[3]), (cd[3], cd[2])):
+                            if a[0] == "bin" and a[1] == "Rem" and K(a[3]) == 3 and K(b) is not None:
+                                mapping[K(b)] = o.info.rv.get("variant")
+                    # does the condition read payload bytes?
+                    bt = fn.bool_test(s)
+                    if bt:
+                        sl = fn.deps(bt[0], bt[3])
+                        reads_payload = any((t.get("callee") or "") in ("encode::ascii_to_digit",) for _, t in sl.calls)
+                        if reads_payload and s not in [x[0] for x in payload_dep]:
+                            payload_dep.append((s, expr_str(cd, fn)))
+            if payload_dep:
+                ctx.fail(rid, fn.path + "/residue-groups", c.where(), fn.path, "tail group kind",
+                         "the width of the last digit group is selected by a condition that depends on digit VALUES (%s); it must depend "
+                         "on the number of remaining digits only: a group like \"05\" would be written in 4 bits instead of 7" % payload_dep[0][1],
+                         expected="1 digit -> Single, 2 digits -> Double", found=[x[1] for x in payload_dep])
+            elif mapping:
+                ctx.check(rid, mapping == {1: "Single", 2: "Double"} or (mapping.get(1) == "Single" and set(mapping.values()) <= {"Single", "Double"}
+                                                                         and len(variants) == 2 and mapping.get(2, "Double") == "Double"),
+                          fn.path + "/residue-groups", c.where(), fn.path, "tail group kind",
+                          "the tail group kind is not chosen as 1 digit -> Single, 2 digits -> Double", expected={1: "Single", 2: "Double"},
+                          found=mapping, sample="residue 1 -> Single, 2 -> Double")
+            else:
+                ctx.abstain(rid, "selection of the tail digit group not recognised (no test of a count modulo 3)", c.where())
 
 
 def c06_r1(ctx, f):
